@@ -79,11 +79,20 @@ func (b *StoredBatch) LastOffset() int64 {
 	return b.BaseOffset
 }
 
+// AbortedTxn is one entry of a partition's aborted-transactions index.
+type AbortedTxn struct {
+	ProducerID  int64
+	First, Last int64
+}
+
 // Partition is one topic partition of the model.
 type Partition struct {
 	// OpenTxn: the last OpenTxn offsets of the log belong to a transaction that
 	// is still open: the last stable offset is LEO - OpenTxn
-	OpenTxn     int64
+	OpenTxn int64
+	// Aborted: transactions of the log that ended with an abort marker (Last is
+	// the marker's offset)
+	Aborted     []AbortedTxn
 	Topic       string
 	ID          int32
 	Leader      int32
@@ -117,6 +126,10 @@ type Topic struct {
 	Parts    []*Partition
 	Internal bool
 	Err      int16
+	// Hidden: metadata responses do not know the topic for the moment (a
+	// broker that has not caught up with the cluster metadata after a
+	// restart); its partitions are served as usual
+	Hidden bool
 	// Hist holds the partition-id sets this topic had before each change made
 	// during the run (NoteChange), with the instant the set stopped being live.
 	Hist []PartSnap
@@ -939,6 +952,9 @@ func (c *Cluster) metadata(b *Broker, r *Req) rc.Msg {
 	all := r.Body.IsNull("topics") || (r.Hdr.APIVersion == 0 && len(req) == 0)
 	if all {
 		for _, n := range c.TopicNames() {
+			if c.Topics[n].Hidden {
+				continue
+			}
 			topics = append(topics, c.metadataTopic(c.Topics[n]))
 		}
 	} else {
@@ -948,7 +964,7 @@ func (c *Cluster) metadata(b *Broker, r *Req) rc.Msg {
 			if t == nil && c.AutoCreate && (r.Hdr.APIVersion < 4 || r.Body.Bool("allow_auto_topic_creation")) {
 				t = c.AddTopic(name, c.AutoCreateParts, func(int) int32 { return c.Brokers[0].ID })
 			}
-			if t == nil {
+			if t == nil || t.Hidden {
 				topics = append(topics, rc.Msg{"error_code": ErrUnknownTopicOrPartition, "name": name, "is_internal": false, "partitions": []rc.Msg{}, "topic_authorized_operations": int32(-2147483648)})
 				continue
 			}
